@@ -133,7 +133,7 @@ func runC02(c *Ctx) {
 	mode := (c.Case / len(catalogue)) % 8
 	os := genOptions(r, optLimits{Leaves: leafPaths(schema)})
 	defer os.Close()
-	modes := []string{"generic_writer", "writer_any", "write_rowgroup_buffer", "write_rowgroup_file", "sorting_writer", "column_writers", "reset_reuse", "concurrent_rowgroups"}
+	modes := productionModes
 	c.D("type", te.Name)
 	c.D("rows", n)
 	c.D("mode", modes[mode])
@@ -143,10 +143,45 @@ func runC02(c *Ctx) {
 		c.Fail("harness.model", nil, "%v", err)
 		return
 	}
-	ex := specreader.Expect{Codec: -1, PageVersion: os.Version}
 	keys := map[string]any{"mode": modes[mode], "type": te.Name}
-	var data []byte
-	if c.guard("c02.panic", keys, func() {
+	data, ex, err, panicked := produceFile(c, "c02.panic", keys, te, rows, want, mode, os)
+	if panicked || (data == nil && err == nil) {
+		return
+	}
+	if err != nil {
+		c.Fail("c02.write_error", keys, "%s: writing %d valid rows failed: %v", modes[mode], n, err)
+		return
+	}
+	c.Obs("mode_"+modes[mode], 1)
+	res := checkFileAgainstModel(c, "c02", keys, data, ex, want)
+	if res.File != nil && len(res.Problems) == 0 {
+		// the library's own view of the footer must agree with the independent one on counts
+		f, err := openBytes(data)
+		if err != nil {
+			c.Fail("c02.library_open", keys, "the library cannot open its own file: %v", err)
+			return
+		}
+		if int64(len(f.RowGroups())) != int64(len(res.File.RowGroups)) || f.NumRows() != res.File.NumRows {
+			c.Fail("c02.footer_disagreement", keys, "library sees %d row groups / %d rows, independent decoder %d / %d", len(f.RowGroups()), f.NumRows(), len(res.File.RowGroups), res.File.NumRows)
+		}
+	}
+	_ = reflect.TypeOf
+	_ = sort.Ints
+}
+
+var productionModes = []string{"generic_writer", "writer_any", "write_rowgroup_buffer", "write_rowgroup_file", "sorting_writer", "column_writers", "reset_reuse", "concurrent_rowgroups"}
+
+// SkipPageBounds columns of the source file of the last write_rowgroup_file production.
+var lastSrcSkipBounds [][]string
+
+// produceFile writes rows through one of the production modes.
+func produceFile(c *Ctx, det string, keys map[string]any, te *typeEntry, rows reflect.Value, want model.Streams, mode int, os *optSet) (data []byte, ex specreader.Expect, err error, panicked bool) {
+	ex = specreader.Expect{Codec: -1, PageVersion: os.Version}
+	r := c.R
+	n := rows.Len()
+	schema := te.ops.Schema()
+	lastSrcSkipBounds = nil
+	panicked = c.guard(det, keys, func() {
 		switch mode {
 		case 0:
 			ops := genWriteHist(r, n)
@@ -182,6 +217,7 @@ func runC02(c *Ctx) {
 		case 3:
 			// source file with its own options, destination with os.Opts
 			src := genOptions(r, optLimits{Leaves: leafPaths(schema)})
+			lastSrcSkipBounds = src.SkipBounds
 			defer src.Close()
 			sameCfg := r.P(40)
 			if sameCfg {
@@ -316,26 +352,6 @@ func runC02(c *Ctx) {
 			err = w.Close()
 			data = buf.Bytes()
 		}
-	}) {
-		return
-	}
-	if err != nil {
-		c.Fail("c02.write_error", keys, "%s: writing %d valid rows failed: %v", modes[mode], n, err)
-		return
-	}
-	c.Obs("mode_"+modes[mode], 1)
-	res := checkFileAgainstModel(c, "c02", keys, data, ex, want)
-	if res.File != nil && len(res.Problems) == 0 {
-		// the library's own view of the footer must agree with the independent one on counts
-		f, err := openBytes(data)
-		if err != nil {
-			c.Fail("c02.library_open", keys, "the library cannot open its own file: %v", err)
-			return
-		}
-		if int64(len(f.RowGroups())) != int64(len(res.File.RowGroups)) || f.NumRows() != res.File.NumRows {
-			c.Fail("c02.footer_disagreement", keys, "library sees %d row groups / %d rows, independent decoder %d / %d", len(f.RowGroups()), f.NumRows(), len(res.File.RowGroups), res.File.NumRows)
-		}
-	}
-	_ = reflect.TypeOf
-	_ = sort.Ints
+	})
+	return
 }
